@@ -948,7 +948,8 @@ class Folder:
                                               'replace', 'encode', 'format', 'title', 'swapcase', 'find', 'index',
                                               'count', 'islower', 'isalpha', 'isalnum', 'isspace', 'zfill', 'ljust',
                                               'rjust', 'partition', 'rpartition', 'splitlines', 'rsplit', 'casefold',
-                                              'rfind', 'center'):
+                                              'rfind', 'center', 'removeprefix', 'removesuffix', 'istitle', 'expandtabs', 'isdecimal', 'isnumeric',
+                                              'isidentifier', 'translate', 'format_map', 'rindex', 'isascii', 'isprintable'):
             return ('strmethod', obj, name)
         if isinstance(obj, (bytes, bytearray)) and name in ('decode', 'startswith', 'endswith', 'strip', 'rstrip', 'lstrip', 'split', 'rsplit', 'find', 'rfind', 'index', 'rindex',
                                                              'partition', 'rpartition', 'replace', 'join', 'count', 'splitlines', 'hex', 'lower', 'upper', 'isdigit',
@@ -1340,6 +1341,8 @@ class Folder:
                     it = self._iter_of(it)
                 if isinstance(it, (bytes, bytearray)):
                     it = list(it)
+                if not isinstance(it, (list, tuple, range, str, LazyIter)) and type(it).__module__ in ('builtins', 're', 'itertools') and hasattr(it, '__next__'):
+                    it = LazyIter(it)
                 if not isinstance(it, (list, tuple, range, str, LazyIter)):
                     raise Unsupported('for over ' + type(it).__name__)
                 broke = False
@@ -1445,7 +1448,9 @@ class Folder:
         if name == 'OrderedDict':
             return ('pyfunc', lambda *a, **k: dict(*a, **k))
         if name == 'Counter':
-            return ('pyfunc', lambda it=(): dict(collections.Counter(list(fo._iterate(it)) if isinstance(it, (LazyIter, DV)) else it)))
+            class CounterD(dict):
+                """collections.Counter reduced to its mapping (arithmetic and most_common are outside the model)."""
+            return ('pyfunc', lambda it=(), **kw_: CounterD(collections.Counter(list(fo._iterate(fo._seq(it))) if isinstance(it, (LazyIter, DV, ClsRef)) else it, **kw_)))
         raise Unsupported(f'collections.{name}')
 
     def _stdlib_hof(self, modname: str, name: str):
@@ -1498,6 +1503,10 @@ class Folder:
                 return LazyIter(real(*a, **k))
             if name in ('chain', 'zip_longest', 'product'):
                 return LazyIter(real(*[seq(x) for x in a], **k))
+            if name == 'tee':
+                return tuple(LazyIter(x) for x in real(seq(a[0]), *a[1:]))
+            if name == 'compress':
+                return LazyIter(x for x, sel in zip(seq(a[0]), seq(a[1])) if fo._truth(sel))
             if name in ('islice', 'cycle', 'permutations', 'combinations', 'combinations_with_replacement', 'pairwise', 'batched'):
                 return LazyIter(real(seq(a[0]), *a[1:], **k))
             if name in ('takewhile', 'dropwhile', 'filterfalse'):
@@ -1760,7 +1769,8 @@ class Folder:
                 and isinstance(env[t.value.id], DV) and id(env[t.value.id]) in self._fresh:
             if not self._property_set(env[t.value.id], t.attr, v):
                 env[t.value.id].fields[t.attr] = v
-        elif isinstance(t, ast.Attribute) and self.allow_loops and not (isinstance(t.value, ast.Name) and t.value.id not in env):
+        elif isinstance(t, ast.Attribute) and self.allow_loops and not (isinstance(t.value, ast.Name) and t.value.id not in env
+                                                                        and (self.repo.resolve_name(self._cur_mod, t.value.id) or ('',))[0] != 'class'):
             # x.y.attr = v : the owner is evaluated; it must be an assignable object of the subject (built by a constructor / mutable dataclass)
             owner = self._eval(t.value, env, self._cur_mod, None)
             if isinstance(owner, DV) and self._property_set(owner, t.attr, v):
@@ -2204,6 +2214,8 @@ class Folder:
         except (ValueError, OverflowError) as e:
             raise _py_exc(e)
         except TypeError as e:
+            if _has_internal([a, b]) or any(isinstance(x_, dict) and type(x_) is not dict for x_ in (a, b)) or getattr(a, '_sa_native', False) or getattr(b, '_sa_native', False):
+                raise Unsupported(f'operator on a modelled container / analyser object: {e}')
             raise FoldRaise('TypeError', str(e))
         except ZeroDivisionError as e:
             raise FoldRaise('ZeroDivisionError', str(e))
@@ -2594,6 +2606,8 @@ class Folder:
                     it = self._iter_of(it)
                 if isinstance(it, (bytes, bytearray)):
                     it = list(it)
+                if not isinstance(it, (list, tuple, range, str, frozenset, set, LazyIter)) and type(it).__module__ in ('builtins', 're', 'itertools') and hasattr(it, '__next__'):
+                    it = LazyIter(it)       # an iterator object of the standard library (re.finditer, iter(callable, sentinel) ...)
                 if not isinstance(it, (list, tuple, range, str, frozenset, set, LazyIter)):
                     raise Unsupported('comprehension over ' + type(it).__name__)
                 return sorted(it, key=repr) if isinstance(it, (set, frozenset)) else it
@@ -2994,6 +3008,13 @@ class Folder:
             if n == 'frozenset':
                 return frozenset(args[0]) if args else frozenset()
             if n in ('getattr', 'hasattr'):
+                if isinstance(args[0], DV) and isinstance(args[1], str) and args[1].startswith('__') and not args[1].endswith('__') and args[1] in args[0].fields:
+                    # a private name is stored under its mangled form; the text '__x' does not name it
+                    if n == 'hasattr':
+                        return False
+                    if len(args) > 2:
+                        return args[2]
+                    raise FoldRaise('AttributeError', str(args[1]))
                 try:
                     v = self._attr_or_prop(args[0], args[1])
                     return True if n == 'hasattr' else v
